@@ -193,8 +193,8 @@ def design(ctx, thorough):
         go("ta", design_cast(["w1"], ["s1", "s2"], [["k1"], ["k2"]], k12, 2, 1), Ready=tla_set(["s1"]),
            CloseModes=tla_set(["graceful"]))
         go("tb", design_cast(["w1", "w2"], ["s1"], [["k1"], ["k2"]], k12, 2, 1, B=2), Ready=tla_set(["s1"]))
-        go("tc", design_cast(["w1", "w2"], ["s1"], [["k1"], ["k2"]], [["k1", "k2"], ["k1"]], 3, 1),
-           Ready=tla_set(["s1"]), CloseModes=tla_set(["graceful"]))
+        go("tc", design_cast(["w1"], ["s1", "s2"], [["k2"]], k12, 3, 0), Ready=tla_set(["s1"]),
+           CloseModes=tla_set(["graceful"]))
     zero = set.intersection(*never) - {"WriterOpen"} if never else set()
     if zero:
         raise vlib.Inconclusive("design check: actions never taken: %s" % sorted(zero))
@@ -708,7 +708,7 @@ def run(ctx):
     states, trans, runs = design(ctx, thorough)
     cov = {"mech": {}, "max_call_us": {}, "tv_states": 0, "tv_transitions": 0, "accepted": 0, "by_config": {},
            "samples": []}
-    n = 400 if thorough else 120
+    n = 700 if thorough else 120
     for p in profiles(thorough):
         scripts = gen_scripts(ctx, p, n, "g_" + p["name"])
         if len(scripts) < n // 3:
